@@ -20,3 +20,8 @@ CHECKS['C02'] = ('model_checking',
   'Every INH inheritance shape x 8 step kinds (or/and/defense with every TTC form/exist/notExist, tags, MITRE) x models with every name/id/defense-value combination (incl. rename collisions, names containing ":"), plus exist/notExist steps whose requirement is every well-typed expression up to the bound over every SEM model up to the bound: node set, attributes, defense/existence status, unique ids and full names, lookups by id and full name.',
   'Trusted: reference fold and reference set semantics. Conflicting metadata on re-declarations is not ranked (every re-declaration repeats type/TTC/tags/meta).',
   'DESIGN.md 3/C02')
+CHECKS['C08'] = ('model_checking',
+  'bounded-exhaustive enumeration of synthetic attack graphs x all storage orders of the node list, compared with a brute-force-validated greatest-fixed-point reference',
+  'Every attack graph with <=3 nodes (16 node kinds, every subset of the n^2 edges incl. self-loops and cycles) and every loop-free 4-node graph over 5 kinds is analysed by the real apriori analyser under EVERY permutation of graph.nodes (the schedule of its worklist); labels must equal the greatest fixed point of the stated equations and be identical across orders. The reference iteration is itself validated against brute force over all labellings.',
+  'Trusted: 60-line reference (validated by brute force each run). TTC "is a probability distribution" = named function other than Enabled/Disabled; arithmetic TTCs outside the alphabet.',
+  'DESIGN.md 3/C08')
